@@ -88,6 +88,8 @@ func apply(kind, tok string, old []byte) ([]byte, error) {
 	switch kind {
 	case "append":
 		return append(append([]byte{}, old...), tok[0]), nil
+	case "clear":
+		return nil, nil
 	case "chop":
 		if len(old) == 0 {
 			return old, nil
@@ -371,9 +373,26 @@ func newRunner(init []string) *runner {
 }
 
 var runnerSeq int64
+var absentSeq int64
 
 func runOne(family, mode string, cfg Config, strat vsched.Strategy, inj Inject) *RunRec {
+	// C07: in every fourth run (not under DFS, whose re-runs have to start alike) the file does not exist yet when the
+	// calls start: the first Write / Transform creates it, and that is one critical section like any other
+	if family == "C07" && mode == "random" && atomic.AddInt64(&absentSeq, 1)%4 == 0 {
+		noHold := true
+		for _, ops := range cfg.Prog {
+			for _, o := range ops {
+				noHold = noHold && o.Op != "hold"
+			}
+		}
+		if noHold {
+			cfg.Init = []string{}
+		}
+	}
 	r := newRunner(cfg.Init)
+	if family == "C07" && mode == "random" && len(cfg.Init) == 0 {
+		os.Remove(r.data)
+	}
 	r.inject = inj
 	if inj.Kind == "eacces" {
 		// the files exist (somebody else made them), the caller just may not write them
